@@ -11,6 +11,8 @@
 package lazybind
 
 import (
+	"sync"
+	"encoding/json"
 	"fmt"
 	"io"
 	"runtime"
@@ -140,8 +142,51 @@ type ExecWorld struct {
 	nodes map[string]interface{}
 }
 
+// The argument maps the resolvers were handed, and what they held then: the map is the application's once it has
+// been given to a resolver (a resolver that works lazily keeps it, a subscription does); nobody writes into it later.
+var kept struct {
+	mu    sync.Mutex
+	items []keptArgs
+}
+
+type keptArgs struct {
+	at  string
+	raw map[string]interface{}
+	was string
+}
+
+func argsText(args map[string]interface{}) string {
+	am := gq.ValMap{}
+	for n, a := range args {
+		am[n] = gq.ArgToValue(a)
+	}
+	b, _ := json.Marshal(am)
+	return string(b)
+}
+
+// ArgsTampered looks at every argument map handed out since the last call and says which one changed ("" if none).
+func ArgsTampered() string {
+	kept.mu.Lock()
+	defer kept.mu.Unlock()
+	out := ""
+	for _, k := range kept.items {
+		if now := argsText(k.raw); now != k.was && out == "" {
+			out = fmt.Sprintf("the arguments map handed to the resolver of %s was changed after the call: it was %s, it is %s", k.at, k.was, now)
+		}
+	}
+	kept.items = nil
+	return out
+}
+
 // ReflResolve implements refluni.Backend without any shared mutable state.
 func (w *ExecWorld) ReflResolve(id, field string, args map[string]interface{}) (interface{}, error) {
+	if 0 < len(args) {
+		kept.mu.Lock()
+		if len(kept.items) < 4096 {
+			kept.items = append(kept.items, keptArgs{at: id + "." + field, raw: args, was: argsText(args)})
+		}
+		kept.mu.Unlock()
+	}
 	if id == "$root" {
 		if r, ok := w.U.Roots[field]; ok {
 			return w.nodes[r], nil
